@@ -1439,6 +1439,9 @@ class TenSym(PySym):
             hi = self.getitem(t, tuple([slice(None)] * axis + [slice(1, L_)]))
             lo = self.getitem(t, tuple([slice(None)] * axis + [slice(0, L_ - 1)]))
             return self.elementwise(lambda x, y: x - y, hi, lo)
+        if cn in ("np.isscalar",):
+            v_ = A(0)
+            return isinstance(v_, (int, float, Fraction, str, bool)) or (isinstance(v_, Rat))
         if cn in ("np.array_equal",):
             a_, b_ = self.to_ten(A(0)), self.to_ten(A(1))
             return a_.shape == b_.shape and self.equal(a_, b_)
@@ -1624,6 +1627,7 @@ class TenSym(PySym):
                     consts[st.targets[0].id] = st.value
         collect(cd)
         o = Obj(_cls=cname, _isa=tuple(isa), _methods=methods, _props=props, _psetters=psetters, tag="%s#%d" % (cname, len(self.calls) + id(cd) % 7))
+        o._ctor = lambda *a_, **k_: self.instantiate(cname, list(a_), k_)        # self.__class__(...) / type(self)(...)
         for k, v in consts.items():
             try:
                 setattr(o, k, self.ex(v))
